@@ -1,6 +1,7 @@
 import OASProofs.Lemmas.Basic
 import OASProofs.Lemmas.Real
 import OASProofs.Generated.Formulas
+import OASProofs.Lemmas.StressCore
 
 /-!
 # Translated formulas = model
@@ -34,6 +35,29 @@ theorem tube_section (r th : ℝ) :
   refine ⟨?_, ?_, ?_, ?_⟩ <;> first | rfl | (norm_num; ring) | ring | norm_num
 
 theorem nonIntersecting (th r : ℝ) : F.nit th r = nonIntersectingThickness th r := rfl
+
+/-- **`VonMisesTube`**: the scalar tail of the stress recovery (what `vonMisesTube` applies to the displacements transformed
+by the element frame, `vonMisesTube_core`) is the code's `tmp`, `sxx0`, `sxx1`, `sxt` and the two `vonmises` lines -/
+theorem tube_stress_lines (E G L rad : ℝ) (u0 r0 u1 r1 : V3 ℝ) :
+    C01AD.tubeCore E G L rad u0 r0 u1 r1
+      = (F.vmt_vm0 (F.vmt_sxx0 E u1.x u0.x L rad (F.vmt_tmp r1.y r0.y r1.z r0.z)) (F.vmt_sxt G rad r1.x r0.x L),
+         F.vmt_vm1 (F.vmt_sxx1 E u0.x u1.x L rad (F.vmt_tmp r1.y r0.y r1.z r0.z)) (F.vmt_sxt G rad r1.x r0.x L)) := by
+  simp only [C01AD.tubeCore, F.vmt_vm0, F.vmt_vm1, F.vmt_sxx0, F.vmt_sxx1, F.vmt_sxt, F.vmt_tmp]
+
+/-- **`VonMisesWingbox`**: the four stresses are the code's four `vonmises` lines applied to its axial, torsion, four bending
+and vertical-shear lines -/
+theorem wingbox_stress_lines (E G tssf L : ℝ) (s : WingboxSec ℝ) (u0 r0 u1 r1 : V3 ℝ) :
+    C01AD.wingboxCore E G tssf L s u0 r0 u1 r1
+      = (F.vmw_vm0 (F.vmw_top E L u0.y r0.z u1.y r1.z s.htop) (F.vmw_rear E L u0.z r0.y u1.z r1.y s.hrear) (F.vmw_axial E u1.x u0.x L)
+            (F.vmw_torsion G s.J L r1.x r0.x s.tspar s.Aenc) tssf,
+         F.vmw_vm1 (F.vmw_bottom E L u0.y r0.z u1.y r1.z s.hbottom) (F.vmw_front E L u0.z r0.y u1.z r1.y s.hfront) (F.vmw_axial E u1.x u0.x L)
+            (F.vmw_torsion G s.J L r1.x r0.x s.tspar s.Aenc),
+         F.vmw_vm2 (F.vmw_front E L u0.z r0.y u1.z r1.y s.hfront) (F.vmw_axial E u1.x u0.x L) (F.vmw_torsion G s.J L r1.x r0.x s.tspar s.Aenc)
+            (F.vmw_vshear E L u0.y r0.z u1.y r1.z s.Qz s.tspar),
+         F.vmw_vm3 (F.vmw_rear E L u0.z r0.y u1.z r1.y s.hrear) (F.vmw_axial E u1.x u0.x L) (F.vmw_torsion G s.J L r1.x r0.x s.tspar s.Aenc)
+            (F.vmw_vshear E L u0.y r0.z u1.y r1.z s.Qz s.tspar) tssf) := by
+  simp only [C01AD.wingboxCore, C01AD.wingboxRad, F.vmw_vm0, F.vmw_vm1, F.vmw_vm2, F.vmw_vm3, F.vmw_top, F.vmw_bottom, F.vmw_front,
+    F.vmw_rear, F.vmw_axial, F.vmw_torsion, F.vmw_vshear]
 
 end Formulas
 end OAS
